@@ -54,6 +54,12 @@ ob("radix","VerifC15Radix",q,t,
  "~radix,mincol,padchar,commachar,commaintR (radix literal or by v, radix from the case list 2..36, other parameters as C15.int) over every nd-digit integer in that radix (digits enumerated by engine forks, sign symbolic) against zzC15RefInt in that radix. The whole obligation lies inside known finding C15-radix-param-ignored (dirR never reads its parameters): the main run only witnesses reachability, the probe run must reproduce the violation.",
  carves=["C15-radix-param-ignored"])
 
+# ---- english, bignums ----
+q=[(0,0,1,19,1),(1,0,2,30,1),(0,0,1,62,1),(0,0,7,63,1),(1,0,2,64,1),(0,1,9,65,0),(0,0,1,66,0),(1,0,1,70,0),(0,0,3,20,2)]
+t=uniq(q+[(o,n,h,nz,1) for o in (0,1) for n in (0,1) for h in (1,9) for nz in (18,21,33,45,60,61,62,63,64,65,66,67)])
+ob("english.big","VerifC15EnglishBig",q,t,
+ "~R / ~:R of bignums: the digit hd, nz zeros, then ns digits 0..9 each (engine forks), i.e. numbers around 10^19 .. 10^66 (the names up to vigintillion, 66 digits) against zzC15RefEnglish with its own table of -illion names; 67 and more digits: a Lisp condition, never a Go fault. The round-number regions of C15.english are repaired, so no carve.")
+
 # ---- english ----
 q=[(0,0,0,3),(1,0,0,3),(0,1,0,2),(1,1,0,2),(0,0,12,3),(1,0,1000,3)]
 t=uniq(q+[(o,n,0,5) for o in (0,1) for n in (0,1)]+[(o,0,f,5) for o in (0,1) for f in (1,9,10,20,99)]+[(o,1,f,4) for o in (0,1) for f in (7,100,999)])
